@@ -856,10 +856,21 @@ func unop(fr *frame, instr *ssa.UnOp, x value) value {
 		}
 		var v value
 		var ok bool
-		select {
-		case v, ok = <-ch:
-		default:
-			unsupported("channel receive would block: no other goroutine runs under the engine")
+		for {
+			received := true
+			select {
+			case v, ok = <-ch:
+			default:
+				received = false
+			}
+			if received {
+				break
+			}
+			// blocked: let a goroutine spawned earlier run (harness flag
+			// "latego"), then look again
+			if !fr.i.runLateGo() {
+				unsupported("channel receive would block: no other goroutine runs under the engine")
+			}
 		}
 		if !ok {
 			v = zero(instr.X.Type().Underlying().(*types.Chan).Elem())
